@@ -1,11 +1,16 @@
 """C12 — enumerated state machine is an input-complete sub-machine."""
-from vlib import core, games, gr1games, transducers
+from vlib import core, games, gr1games, transducers, games_enum_gen
 from vlib.core import Broken, Mismatch, Failing
 from vlib.gr1games import QINITS
 
 ID = 'C12'
 LEVEL = 'proof'
-THEORIES = ['theories/L4Enum/EnumProofs.vo', 'theories/L4/Tables.vo']
+THEORIES = ['theories/L4Enum/EnumProofs.vo', 'theories/L4/Tables.vo',
+            'theories/L4Enum/EnumOrderProofs.vo',
+            'theories/L4Enum/EnumArenaProofs.vo',
+            'theories/L4Enum/EnumContracts.vo',
+            'theories/L4Enum/EnumCode.vo',
+            'theories/L4Enum/EnumCodeProofs.vo']
 
 HEADER = '''From Coq Require Import List Bool Arith.
 Import ListNotations.
@@ -19,16 +24,54 @@ Definition tabS (ny : nat) (t : list (list bool)) (x y x' y' : nat) : bool :=
 
 def prove(ctx):
     with ctx.coq_lock():
-        ctx.prove('Properties/C12.v')
+        # tie T: regenerate gen/GamesEnumGen.v from the current
+        # omega/games/enumeration.py, then re-prove GenProofs/GamesEnumBridge.v
+        # (generated code = code-level model L4Enum/EnumCode.v, by
+        # conversion; the C12 theorems restated about the generated
+        # functions) and the statements of Properties/C12.v built on it
+        notes = games_enum_gen.ensure_games_enum(ctx)
+        ctx.checker_cmds.append(
+            'PYTHONPATH=tools python3 tools/vlib/games_enum_gen.py > '
+            'coq/gen/GamesEnumGen.v (translator tools/py2coq_games_enum.py)')
+        ctx.prove_with_deps('Properties/C12.v')
+    ctx.extra['translation'] = dict(
+        source=games_enum_gen.SRC, functions=games_enum_gen.FUNCTIONS,
+        not_translated=games_enum_gen.NOT_TRANSLATED,
+        generated='coq/' + games_enum_gen.GENERATED,
+        code_level_model='coq/theories/L4Enum/EnumCode.v',
+        simulation='coq/theories/L4Enum/EnumCodeProofs.v',
+        bridge='coq/GenProofs/GamesEnumBridge.v', notes=notes)
     ctx.trusted.append(
-        'hand-written model theories/L4Enum/EnumModel.v of '
-        'enumeration._action_to_steps/_init_search (tie H: the verified '
-        'checker check_graph is evaluated in Coq on the graphs returned by '
-        'the real enumeration; initial-node patterns checked by an explicit '
-        'oracle)')
+        'translator tie T: tools/py2coq_games_enum.py '
+        '(enumeration.action_to_steps, _action_to_steps, '
+        '_select_candidate_nodes, _primed_vars_per_quantifier, _init_search, '
+        '_forall_init, _exist_init, _forall_exist_init, _exist_forall_init, '
+        '_find_node, _add_new_node, _node_tuple -> Gallina over the arena '
+        'algebra theories/L4Enum/EnumArena.v: BDDs = canonical tables of '
+        'their meaning over the valuations, all variables of a player = one '
+        'vector-valued variable, dicts = insertion-ordered association '
+        'lists, networkx.DiGraph = nodes with attribute dicts + edge set + '
+        'initial_nodes, any exception = None, `while` = recursion on fuel, '
+        'loop state = the names live at the loop head, aliasing discipline '
+        'checked; fails closed; everything skipped is a note in '
+        'coq/gen/GamesEnumGen.v and in the evidence)')
+    ctx.trusted.append(
+        'hand-written abstract model theories/L4Enum/EnumModel.v; the '
+        'translated code is tied to it by the simulation of '
+        'L4Enum/EnumCodeProofs.v (code-level model L4Enum/EnumCode.v, proved '
+        'EQUAL to the generated functions on every run). Remaining tie H: '
+        'what the dd operations let/exist/forall/&/==/pick denote and '
+        'enumeration._add_to_visited (a formula built as a string and '
+        'parsed; taken as visited \\/ cube) - covered by evaluating the '
+        'verified checker check_graph in Coq on the graphs returned by the '
+        'real enumeration and by the explicit oracle for the initial nodes')
     ctx.assumptions.append(
         'domain: environment action independent of the component\'s next '
-        'values; dd pick returns a member of the set it is given')
+        'values; dd pick / pick_iter meet the contracts of '
+        'L4Enum/EnumContracts.v for BDDs that depend only on care_vars '
+        '(pick: a member assigning exactly care_vars; pick_iter: all '
+        'members, each once; no order assumed; satisfiable: '
+        'C12_pick_contracts_satisfiable)')
 
 
 def make_handmade(rng, backend, moore):
